@@ -184,6 +184,7 @@ class RefEval:
     def __init__(self, eng, alloc, dialect):
         self.eng, self.alloc, self.dialect = eng, alloc, dialect
         self.funs, self.consts, self.const_forms = {}, {}, {}
+        self.macros = {}
         self.depth = 0
 
     # -- primitives: the consensus operator implementations, nothing of the compiler
@@ -292,6 +293,8 @@ class RefEval:
                 break
             args.append(self.eval(items[k], env))
             k += 1
+        if h in self.macros and h not in env:
+            return self.eval(self.expand_macro(h, items[1:]), env)
         if h in self.funs:
             params, body = self.funs[h]
             for v in args:
@@ -306,6 +309,29 @@ class RefEval:
                 raise RefOutside('&rest on an operator')
             return self.apply_op(h, args)
         raise RefOutside('form head %s' % h.decode())
+
+    def expand_macro(self, name, arg_forms):
+        """macros of the form (defmacro M (P ...) (qq TEMPLATE)): TEMPLATE with every (unquote P) replaced by the argument
+        form, which is then evaluated where the macro was used; anything else is outside the reference"""
+        params, body = self.macros[name]
+        pi, ptail = f_items(params)
+        if ptail.k != 'nil' or any(p.k != 'sym' for p in pi) or len(pi) != len(arg_forms):
+            raise RefOutside('macro parameter list')
+        sub = {p.a: a for p, a in zip(pi, arg_forms)}
+        bi, _ = f_items(body)
+        if len(bi) != 2 or bi[0].k != 'sym' or bi[0].a != b'qq':
+            raise RefOutside('macro body that is not a quasi-quote')
+
+        def go(f):
+            if f.k != 'cons':
+                return f
+            it, tl = f_items(f)
+            if len(it) == 2 and tl.k == 'nil' and it[0].k == 'sym' and it[0].a == b'unquote':
+                if it[1].k == 'sym' and it[1].a in sub:
+                    return sub[it[1].a]
+                raise RefOutside('unquote of an expression')
+            return Form('cons', go(f.a), go(f.b))
+        return go(bi[1])
 
     def need_tree(self, v):
         if not isinstance(v, Tree):
@@ -421,6 +447,8 @@ class RefEval:
                 self.const_forms[hi[1].a] = f_list([Form('sym', b'quote'), hi[2]]) if hi[2].k == 'cons' else hi[2]
             elif kind == b'defconst':
                 self.const_forms[hi[1].a] = hi[2]
+            elif kind == b'defmacro':
+                self.macros[hi[1].a] = (hi[2], hi[3])
             else:
                 raise RefOutside('helper form %s' % kind.decode())
         env = {}
@@ -601,6 +629,11 @@ TEMPLATES = [
     ('cmp_ops', '(mod (X Y) {S} (list (> X Y) (= X Y) (not X) (l Y)))', [('list', 'B', 'B'), ('list', 'B', ['B', 'E'])]),
 ]
 
+TEMPLATES += [
+    ('constant_atom', '(mod (X) {S} (defconstant K 7) (defun H (A) (+ A K)) (H X))', [('list', 'B')]),
+    ('macro', '(mod (X Y) {S} (defmacro twice (A) (qq (+ (unquote A) (unquote A)))) (defun F (A) (twice (* A 3))) (F (- X Y)))', [('list', 'B', 'B')]),
+]
+
 TEMPLATES_23 = [
     ('defconst', '(mod (X) {S} (defconstant K 7) (defconst L (+ K 1)) (defun H (A) (+ A K L)) (H X))', [('list', 'B')]),
     ('assign', '(mod (X Y) {S} (defconstant K 7) (defun H (A) (assign B (+ A K) C (* B 2) (list A B C))) (H X))', [('list', 'B', 'B')]),
@@ -739,3 +772,146 @@ class CompileRun(Harness):
 
     def required_witnesses(self, tier):
         return ['value']
+
+
+class BuildsAgree(CompileRun):
+    """C02: two builds of one program that differ only in optimisation / dialect level, run on the same symbolic
+    arguments: when both return a value the values are identical, and each returns the source's value when there is one"""
+    name = 'builds_agree'
+    prop = 'C02'
+    PAIRS = {'quick': [(('cl21', False), ('cl21', True)), (('cl21', False), ('cl22', False)), (('cl21', False), ('cl23', False))],
+             'thorough': [(('cl21', False), ('cl21', True)), (('cl21', False), ('cl22', False)), (('cl21', False), ('cl23', False)),
+                          (('cl22', False), ('cl22', True)), (('cl23', False), ('cl23', True)), (('cl23', False), ('cl24', False)),
+                          (('cl23', False), ('cl23.1', False))]}
+    assumptions = CompileRun.assumptions + ['the two builds are compiled from the same template text with only the dialect sigil / optimise flag changed']
+
+    def cases(self, tier):
+        for name, src, specs in TEMPLATES:
+            for a, b in self.PAIRS[tier]:
+                if tier == 'quick' and 'cl23' in (a[0], b[0]) and name not in self.QUICK_23:
+                    continue
+                for k in range(len(specs)):
+                    yield dict(t=name, a=list(a), b=list(b), spec=k)
+
+    def template2(self, case, which):
+        sig, optimize = case[which]
+        for name, src, specs in TEMPLATES + TEMPLATES_23:
+            if name == case['t']:
+                return src.replace('{S}', SIGILS[sig]), bool(optimize), specs[case['spec']]
+        raise KeyError(case['t'])
+
+    def template(self, case):
+        src, _, spec = self.template2(case, 'a')
+        return src, spec
+
+    def run(self, eng, case, inp):
+        progs = []
+        for which in ('a', 'b'):
+            src, optimize, spec = self.template2(case, which)
+            cp = compiled_program(src, optimize)
+            for k, v in cp.get('functions', {}).items():
+                eng.encoded.setdefault(k, v)
+            if cp['end'] not in ('ok', 'err'):
+                raise Unsupported('compilation under mirsym ended as %s: %s' % (cp['end'], cp.get('msg', '')))
+            if not cp['agrees']:
+                raise Unsupported('mirsym compilation output differs from the native build for %s' % json.dumps(case[which]))
+            progs.append(cp['compiled'])
+        if progs[0] is None:
+            return dict(compile_err='a')
+        if progs[1] is None:
+            return dict(compile_err='b')
+        eng.env['tls'] = tls(True)
+        alloc = Ref(Cell(Struct('Allocator', [])))
+        dialect = Ref(Cell(Struct('ChiaDialect', [mkint(0x0102, 'u32')])))
+        src, _, spec = self.template2(case, 'a')
+        args = arg_tree(spec, iter(inp['b']))
+        out = dict(res=[])
+        try:
+            out['want'] = RefEval(eng, alloc, dialect).run_mod(read_forms(src)[0], args)
+        except RefFail as e:
+            out['ref_fail'] = str(e)
+        except RefOutside as e:
+            raise Unsupported('reference evaluator: %s' % e)
+        for p in progs:
+            out['res'].append(eng.call('run_program::run_program', [alloc, dialect, tree_from_json(p), args, mkint(0, 'u64')]))
+        return out
+
+    def obligations(self, eng, case, inp, out):
+        if out.get('compile_err') == 'a':
+            return [('template_compiles', z3.BoolVal(False))]
+        if out.get('compile_err') == 'b':
+            return [('switching_optimisation_on_never_breaks_compilation', z3.BoolVal(False))]
+        ra, rb = out['res']
+        obs = []
+        if ra.variant == 'Ok' and rb.variant == 'Ok':
+            obs.append(('both_builds_return_the_same_value', tree_eq(ra.fields[0].fields[1], rb.fields[0].fields[1])))
+        if 'want' in out:
+            for nm, r in (('a', ra), ('b', rb)):
+                if r.variant != 'Ok':
+                    obs.append(('build_%s_returns_a_value' % nm, z3.BoolVal(False)))
+                else:
+                    obs.append(('build_%s_returns_the_source_value' % nm, tree_eq(r.fields[0].fields[1], out['want'])))
+        return obs
+
+    def output_json(self, eng, case, inp, out, model):
+        if out.get('compile_err'):
+            return dict(compile_err=out['compile_err'])
+        d = dict(res=[tree_to_json(model, r.fields[0].fields[1], ev) if r.variant == 'Ok' else None for r in out['res']])
+        if 'want' in out:
+            d['want'] = tree_to_json(model, out['want'], ev)
+        return d
+
+    def native_inputs_pred(self, case, j, predicted):
+        srca, opta, spec = self.template2(case, 'a')
+        srcb, optb, _ = self.template2(case, 'b')
+        d = dict(source=srca, optimize=opta, source_b=srcb, optimize_b=optb, args=arg_json(spec, iter(j['b'])))
+        if isinstance(predicted, dict) and 'want' in predicted:
+            d['expect'] = predicted['want']
+        return d
+
+    def native_matches(self, case, j, native, predicted):
+        if not isinstance(predicted, dict) or 'res' not in predicted:
+            return True
+        got = [native.get('result', {}).get('ok'), native.get('result_b', {}).get('ok')]
+        return got == predicted['res']
+
+    def is_violation(self, case, j, native):
+        ra, rb = native.get('result', {}), native.get('result_b', {})
+        if 'ok' in ra and 'ok' in rb and ra['ok'] != rb['ok']:
+            return True
+        return native.get('matches_expect') is False or native.get('matches_expect_b') is False
+
+    def oracle(self, case, j):
+        return 'the other build of the same source, and call-by-value evaluation of the source text (RefEval)'
+
+
+class ClassicBuilds(BuildsAgree):
+    """C03: the classic compiler's build (no dialect sigil) of programs in the subset both compilers accept, against
+    call-by-value evaluation of the source and against the modern cl21 build of the same text"""
+    name = 'classic_builds'
+    prop = 'C03'
+    CLASSIC_OK = ('arith', 'defun_if', 'destructure', 'constant_atom', 'recursion', 'nested_inline', 'if_lazy', 'cmp_ops', 'macro')
+    PAIRS = {'quick': [(('classic', False), ('cl21', False))], 'thorough': [(('classic', False), ('cl21', False)), (('classic', False), ('cl21', True))]}
+    functions = ['clvmc::compile_clvm_text_maybe_opt (classic branch)', 'stage_2::operators::run_program_for_search_paths / CompilerOperators::{op, run_program}',
+                 'stage_2::compile::{do_com_prog, compile_qq, compile_macros, compile_symbols, try_expand_macro_for_atom, compile_application, ...}',
+                 'stage_2::module::{compile_mod, build_tree, symbol_table_for_tree, build_macro_lookup_program, ...}', 'stage_2::optimize::optimize_sexp',
+                 'stage_2::inline', 'stage_2::reader', 'clvmr run_program (MIR), which interprets the classic compiler\'s own CLVM stages and macros'] + CompileRun.functions[:1]
+    outside = 'programs other than the templates; include files; argument atoms longer than the stated shapes'
+
+    def cases(self, tier):
+        for name, src, specs in TEMPLATES + TEMPLATES_CLASSIC:
+            if name not in self.CLASSIC_OK:
+                continue
+            for a, b in self.PAIRS[tier]:
+                for k in range(len(specs)):
+                    yield dict(t=name, a=list(a), b=list(b), spec=k)
+
+    def template2(self, case, which):
+        sig, optimize = case[which]
+        for name, src, specs in TEMPLATES + TEMPLATES_23 + TEMPLATES_CLASSIC:
+            if name == case['t']:
+                return src.replace('{S}', SIGILS[sig]), bool(optimize), specs[case['spec']]
+        raise KeyError(case['t'])
+
+
+TEMPLATES_CLASSIC = []
